@@ -2,6 +2,7 @@
   C08 — every collection reclaims all unreachable containers; heap stays bounded.
 -/
 import Pakhi.Lemmas.Collect
+import Pakhi.Lemmas.MarkFuel
 
 namespace Pakhi
 namespace C08
@@ -124,6 +125,10 @@ where
     simp [(sweep_lists h m).1, sl.len]
 
 example : usedLists { lists := [[], [.nil], []], freeLists := [2, 0], records := [], freeRecords := [], allocCount := 0 } = 1 := by decide
+
+/-- every collection terminates within the model's fuel bound, for every heap and every set of scopes -/
+theorem collection_terminates (scopes : List Scope) (h : Heap) : collect scopes h ≠ .fuel :=
+  collect_never_out_of_fuel scopes h
 
 end C08
 end Pakhi
